@@ -4,16 +4,26 @@
    Rule (Model/AspNodes.v; tied to the real library by the op asp_node_roundtrip of props/C14nodes.json).
 
    * C14_node_tokens: token level, EVERY node of every kind, no side condition.
-   * C14_node_text_partial: text level with the lexical step as an explicit hypothesis (the char-level
-     lexer lemma of Proofs/AspLex.v is stated for token lists that are followed by a separator token; a
-     stand-alone node is followed by the end of the input, where `negation = "not" ~ &(WHITESPACE | EOI)`
-     behaves differently -- exactly the recorded defect class F7d below).
-   * C14_F7d_*: the class F7d is a genuine defect of the printer/parser pair: the accepted texts "(not)"
-     (Term), "not()" (Atom), "1 = (not)" (Comparison), "q, not()" (Body), "not()" (Head) print as texts
-     that the same entry point refuses.  Rule and Program are not affected ("." follows). *)
+   * C14_node_lex / C14_node_text: text level, every node of every kind whose identifiers are in the
+     lexical classes of the grammar ([wf_node]), whose numerals fit isize and that is OUTSIDE the two
+     recorded defect classes ([node_known_class n = None]): the model lexer reads the printed bytes back
+     as the printed tokens and the entry point returns the node.  No lexical hypothesis is left
+     (second audit, finding B5: the former C14_node_text_partial had the lexical round trip itself as
+     a premise).
+   * C14_node_image: every node an entry point returns is in that class, hence
+     C14_node_accepted_text: every ACCEPTED node text outside F7 / F7d round-trips, and
+     C14_node_print_idem(_text): printing the re-parsed tree yields identical tokens and bytes.
+   * C14_node_text_given_lex: the same conclusion for ARBITRARY identifiers, with the lexical step as
+     an explicit hypothesis (kept because it has no condition on identifiers; nothing is open).
+   * The class premise is necessary: C14_F7d_* / C14_F7_term are nodes IN THE IMAGE of the entry point
+     (accepted texts "(not)", "not()", "1 = (not)", "q, not()", "not+1") that satisfy every other
+     premise and whose printed text the same entry point refuses.  F7d: `negation = "not" ~
+     &(WHITESPACE | EOI)` fires at the END of the input, so a printed node that ends with the symbol
+     `not` is refused; Rule and Program are not affected ("." follows).  F7 (Properties/C14.v): `not`
+     printed in front of a blank.  Both are genuine defects of the printer/parser pair. *)
 From Coq Require Import List Ascii String ZArith Bool.
 From Anthem Require Import Syntax.Asp Model.AspTableTypes Model.AspPrint Model.AspParse Model.AspNodes
-  Proofs.AspNodesOk.
+  Proofs.AspLex Proofs.AspNodesOk Proofs.AspNodesLex Proofs.AspNodesImage.
 Import ListNotations.
 Open Scope string_scope.
 Open Scope list_scope.
@@ -28,13 +38,72 @@ Theorem C14_node_rule_any_guard : forall (r : rule) (g : bool),
 Proof. exact rule_roundtrip_tokens_any. Qed.
 Print Assumptions C14_node_rule_any_guard.
 
-Theorem C14_node_text_partial : forall n : node,
+(* Text level with the lexical step as an explicit hypothesis, ARBITRARY identifiers.  The hypothesis
+   is discharged by C14_node_lex for identifiers in the lexical classes of the grammar. *)
+Theorem C14_node_text_given_lex : forall n : node,
   lex_node (display_node n) = Some (print_node n) ->
   (leading_skip (display_node n) = false \/ kind_of n = KRule) ->
   node_numerals_ok n = true ->
   parse_node_text (kind_of n) (display_node n) = POk n.
 Proof. exact node_roundtrip_text_partial. Qed.
-Print Assumptions C14_node_text_partial.
+Print Assumptions C14_node_text_given_lex.
+
+(* [wf_node n]: every symbol of n matches _?[a-z][A-Za-z0-9_]* and every variable [A-Z][A-Za-z0-9]*
+   (Proofs/AspNodesLex.v; the per-kind predicates wf_term ... wf_rule of Proofs/AspLex.v) *)
+Example C14_wf_node_unfold : forall (t : term) (a : atom) (l : literal) (c : comparison) (f : bformula)
+  (h : head) (b : list bformula) (r : rule),
+  (wf_node (NTerm t) <-> wf_term t) /\ (wf_node (NAtom a) <-> wf_atom a) /\
+  (wf_node (NLiteral l) <-> wf_atom (latom l)) /\
+  (wf_node (NComparison c) <-> wf_term (clhs c) /\ wf_term (crhs c)) /\
+  (wf_node (NAtomicFormula f) <-> wf_bformula f) /\ (wf_node (NHead h) <-> wf_head h) /\
+  (wf_node (NBody b) <-> Forall wf_bformula b) /\ (wf_node (NRule r) <-> wf_rule r).
+Proof. intros. cbn. tauto. Qed.
+
+(* The lexical step (for the MODEL lexer, which is tied to pest by correspondence only): outside the
+   classes F7 / F7d the lexer of the stand-alone entry point reads the printed bytes back as exactly
+   the printed tokens -- all 8 node kinds. *)
+Theorem C14_node_lex : forall n : node,
+  wf_node n -> node_known_class n = None ->
+  lex_node (display_node n) = Some (print_node n).
+Proof. exact lex_node_display. Qed.
+Print Assumptions C14_node_lex.
+
+(* ... so the stand-alone entry point returns the node (numerals within isize, else the real parser
+   panics) *)
+Theorem C14_node_text : forall n : node,
+  wf_node n -> node_numerals_ok n = true -> node_known_class n = None ->
+  parse_node_text (kind_of n) (display_node n) = POk n.
+Proof. exact node_roundtrip_text. Qed.
+Print Assumptions C14_node_text.
+
+(* The image of every entry point is inside that class (and the node has the kind that was asked for) *)
+Theorem C14_node_image : forall (k : node_kind) (s : string) (n : node),
+  parse_node_text k s = POk n ->
+  kind_of n = k /\ wf_node n /\ node_numerals_ok n = true.
+Proof. exact parse_node_text_image. Qed.
+Print Assumptions C14_node_image.
+
+(* ... hence: every accepted node text, printed, is accepted again by the same entry point and parses
+   to the identical tree -- unless the tree is in the class F7 / F7d. *)
+Theorem C14_node_accepted_text : forall (k : node_kind) (s : string) (n : node),
+  parse_node_text k s = POk n -> node_known_class n = None ->
+  parse_node_text k (display_node n) = POk n.
+Proof. exact node_roundtrip_image. Qed.
+Print Assumptions C14_node_accepted_text.
+
+(* printing the re-parsed tree gives identical tokens, hence identical bytes (token level: every node) *)
+Theorem C14_node_print_idem : forall n m : node,
+  parse_node_toks (kind_of n) false (print_node n) = POk (m, []) ->
+  print_node m = print_node n /\ display_node m = display_node n.
+Proof. exact node_print_idem. Qed.
+Print Assumptions C14_node_print_idem.
+
+Theorem C14_node_print_idem_text : forall (k : node_kind) (s : string) (n m : node),
+  parse_node_text k s = POk n -> node_known_class n = None ->
+  parse_node_text k (display_node n) = POk m ->
+  m = n /\ display_node m = display_node n.
+Proof. exact node_print_idem_text. Qed.
+Print Assumptions C14_node_print_idem_text.
 
 (* ---------------------------------------------------------------- recorded defect class F7d *)
 Example C14_F7d_term :
@@ -70,7 +139,8 @@ Proof. vm_compute. repeat split. Qed.
 Example C14_F7d_head :
   parse_node_text KHead "not()" = POk (NHead (HBasic (mkatom "not" []))) /\
   display_node (NHead (HBasic (mkatom "not" []))) = "not" /\
-  parse_node_text KHead "not" = PFail.
+  parse_node_text KHead "not" = PFail /\
+  node_known_class (NHead (HBasic (mkatom "not" []))) = Some "F7d".
 Proof. vm_compute. repeat split. Qed.
 
 (* a rule is not affected: "." follows the symbol *)
@@ -89,9 +159,111 @@ Example C14_F7_term :
   node_known_class (NTerm (TBin AAdd (TPre (PSym "not")) (TPre (PNum 1)))) = Some "F7".
 Proof. vm_compute. repeat split. Qed.
 
+(* The class premise of C14_node_lex / C14_node_text / C14_node_accepted_text is NECESSARY: each of
+   these nodes is in the image of its entry point (Examples above), satisfies every other premise
+   (identifiers in the lexical classes, numerals within isize), is in a class, and its printed text
+   is refused by the same entry point; the lexical step is what fails. *)
+Example C14_class_premise_necessary :
+  Forall (fun n : node =>
+            wf_node n /\ node_numerals_ok n = true /\ node_known_class n <> None /\
+            lex_node (display_node n) <> Some (print_node n) /\
+            parse_node_text (kind_of n) (display_node n) = PFail)
+    [ NTerm (TPre (PSym "not"));
+      NAtom (mkatom "not" []);
+      NComparison (mkcmp AEq (TPre (PNum 1)) (TPre (PSym "not")));
+      NAtomicFormula (BLit (mklit SDNeg (mkatom "not" [])));
+      NHead (HBasic (mkatom "not" []));
+      NBody [BLit (mklit SNone (mkatom "q" [])); BLit (mklit SNone (mkatom "not" []))];
+      NTerm (TBin AAdd (TPre (PSym "not")) (TPre (PNum 1)));
+      NRule (mkrule (HBasic (mkatom "not" [])) [BLit (mklit SNone (mkatom "p" []))]) ].
+Proof.
+  repeat (apply Forall_cons || apply Forall_nil);
+    (split; [cbn; repeat (constructor || split)|]);
+    (split; [vm_compute; reflexivity|]);
+    (split; [vm_compute; discriminate|]);
+    (split; [vm_compute; discriminate|vm_compute; reflexivity]).
+Qed.
+
 (* ---------------------------------------------------------------- non-vacuity *)
+(* C14_node_text APPLIED: one node of every kind (all operators, unary minus on numerals, a negative
+   numeral, nested intervals, `not` as an argument and as a predicate in harmless positions, a choice
+   head, a constraint whose text begins with a blank, the empty head and the empty body): the three
+   premises hold, and the conclusion is obtained from the theorem *)
+Definition c14_node_term : term :=
+  TBin AInterval (TBin ASub (TUn AUNeg (TPre (PNum 5))) (TUn AUNeg (TUn AUNeg (TPre (PNum (-4))))))
+    (TBin AAdd (TBin AMod (TBin ADiv (TBin AMul (TVar "X") (TVar "Y")) (TPre (PSym "_z"))) (TPre (PNum 0)))
+       (TBin AInterval (TPre PInf) (TPre PSup))).
+Definition c14_node_atom : atom := mkatom "not" [c14_node_term; TPre (PSym "not"); TVar "N0t"].
+Definition c14_node_nodes : list node :=
+  [ NTerm c14_node_term;
+    NTerm (TUn AUNeg (TBin AInterval (TPre (PSym "not")) (TPre (PNum 7))));
+    NAtom c14_node_atom;
+    NLiteral (mklit SDNeg c14_node_atom);
+    NComparison (mkcmp AGe (TBin AInterval (TPre (PSym "not")) (TVar "X")) c14_node_term);
+    NAtomicFormula (BCmp (mkcmp ANe (TVar "X") (TPre (PNum (-1)))));
+    NAtomicFormula (BLit (mklit SNeg (mkatom "p" [])));
+    NHead (HChoice c14_node_atom); NHead (HBasic (mkatom "q" [])); NHead HFalsity;
+    NBody []; NBody [BLit (mklit SNeg c14_node_atom); BCmp (mkcmp ALt c14_node_term (TVar "Y")); BLit (mklit SNone (mkatom "not" [TPre (PNum 1)]))];
+    NRule (mkrule HFalsity [BLit (mklit SNone (mkatom "not" []))]);
+    NRule (mkrule HFalsity []);
+    NRule (mkrule (HChoice (mkatom "not" [])) []);
+    NRule (mkrule (HBasic c14_node_atom) [BLit (mklit SDNeg c14_node_atom); BCmp (mkcmp AEq (TVar "X") c14_node_term)]) ].
+
+Example C14_node_text_premises_hold :
+  Forall (fun n => wf_node n /\ node_numerals_ok n = true /\ node_known_class n = None) c14_node_nodes.
+Proof.
+  repeat (apply Forall_cons || apply Forall_nil);
+    (split; [cbn; repeat (constructor || split)|split; vm_compute; reflexivity]).
+Qed.
+
+Example C14_node_text_applied :
+  Forall (fun n => parse_node_text (kind_of n) (display_node n) = POk n) c14_node_nodes.
+Proof.
+  eapply Forall_impl; [|exact C14_node_text_premises_hold].
+  intros n [W [N C]]. exact (C14_node_text n W N C).
+Qed.
+
+(* the same by computation, with the printed bytes (a constraint begins with a blank) *)
+Example C14_node_text_bytes :
+  map display_node c14_node_nodes =
+  [ "-(5) - ---4..X * Y / _z \ 0 + (#inf..#sup)"; "-(not..7)"; "not(-(5) - ---4..X * Y / _z \ 0 + (#inf..#sup), not, N0t)";
+    "not not not(-(5) - ---4..X * Y / _z \ 0 + (#inf..#sup), not, N0t)";
+    "not..X >= -(5) - ---4..X * Y / _z \ 0 + (#inf..#sup)"; "X != -1"; "not p";
+    "{not(-(5) - ---4..X * Y / _z \ 0 + (#inf..#sup), not, N0t)}"; "q"; ""; "";
+    "not not(-(5) - ---4..X * Y / _z \ 0 + (#inf..#sup), not, N0t), -(5) - ---4..X * Y / _z \ 0 + (#inf..#sup) < Y, not(1)";
+    " :- not."; " :- ."; "{not}.";
+    "not(-(5) - ---4..X * Y / _z \ 0 + (#inf..#sup), not, N0t) :- not not not(-(5) - ---4..X * Y / _z \ 0 + (#inf..#sup), not, N0t), X = -(5) - ---4..X * Y / _z \ 0 + (#inf..#sup)." ] /\
+  forallb (fun n => match parse_node_text (kind_of n) (display_node n) with POk _ => true | _ => false end)
+    c14_node_nodes = true.
+Proof. vm_compute. split; reflexivity. Qed.
+
+(* every accepted text below is outside the classes; C14_node_accepted_text APPLIED gives the round trip *)
+Example C14_node_accepted_text_applied :
+  Forall (fun ks : node_kind * string =>
+            match parse_node_text (fst ks) (snd ks) with
+            | POk n => node_known_class n = None /\ parse_node_text (fst ks) (display_node n) = POk n
+            | _ => False
+            end)
+    [ (KTerm, " - 1 .. (not)..-(-3)"); (KAtom, "not( not,not)"); (KLiteral, " not not(X)");
+      (KComparison, "%c
+ -1 < (not)..1"); (KAtomicFormula, "not not not(1)"); (KHead, "{ not}"); (KHead, " % only layout");
+      (KBody, " not, not not not;1=1"); (KBody, ""); (KRule, " :- not."); (KRule, "{not}:-not,not not."); (KRule, " .") ].
+Proof.
+  repeat (apply Forall_cons || apply Forall_nil); cbn [fst snd];
+    match goal with
+    | |- match ?p with _ => _ end =>
+      let r := eval vm_compute in p in
+      match r with
+      | POk ?n =>
+        assert (E : p = POk n) by (vm_compute; reflexivity); rewrite E;
+        assert (C : node_known_class n = None) by (vm_compute; reflexivity);
+        split; [exact C|exact (C14_node_accepted_text _ _ _ E C)]
+      end
+    end.
+Qed.
+
 (* every operator, unary minus on numerals, a negative numeral, nested intervals, `not` as an argument
-   in a harmless position: accepted, outside the classes, the hypotheses of C14_node_text_partial hold
+   in a harmless position: accepted, outside the classes, the hypotheses of C14_node_text_given_lex hold
    and the text round trip succeeds *)
 Example C14_nodes_nonvacuous_body :
   match parse_node_text KBody "not not p(-(5), --4, 1..(2..3), X*Y/Z\2, (not)), a+1 != -X; not q" with
